@@ -91,7 +91,7 @@ def execute(plan):
             if mode is not None:
                 os.chmod(path, mode)
         os.chdir(d)
-    argv = [a.replace('{DIR}', d or '.') for a in plan['argv']]
+    argv = [a.replace('{DIR}', '.') for a in plan['argv']]      # the child runs inside its scratch directory, so paths stay seed-independent
     out, err = io.StringIO(), io.StringIO()
     rec = {'argv': argv, 'status': None, 'outcome': None, 'exc': None}
     state = {'done': False}
